@@ -36,7 +36,7 @@ func (r *Rng) Intn(n int) int {
 	}
 	return int(r.U64() % uint64(n))
 }
-func (r *Rng) Bool() bool       { return r.U64()&1 == 1 }
+func (r *Rng) Bool() bool        { return r.U64()&1 == 1 }
 func (r *Rng) Pick(xs []int) int { return xs[r.Intn(len(xs))] }
 func (r *Rng) Bytes(n int) []byte {
 	b := make([]byte, n)
@@ -186,6 +186,7 @@ func (r *Result) Sample(s string) {
 		r.Samples = append(r.Samples, s)
 	}
 }
+
 // Violate records a property violation found on the implementation; at most 3 witnesses per class are kept
 // (so that a frequent known class cannot crowd out a new one), counts per class go to the distribution.
 func (r *Result) Violate(class, what string, ops []string) {
